@@ -2,6 +2,7 @@ package eventbus
 
 import (
 	"context"
+	"reflect"
 	"sync"
 )
 
@@ -284,4 +285,66 @@ func harnessC06TwoWaiters() {
 	bus.Wait()
 	vJoinAll()
 	vCover("both-returned")
+}
+
+//verif:entry property=C06 tier=both bounds="a Shutdown that succeeded (nothing in flight), then one publish to an async handler that yields mid-way, then a second Shutdown (live or already cancelled context): it returns nil only after that invocation has finished, the context's error otherwise; every interleaving within the preemption bound" cover="shutdown-after-shutdown" preempt_quick=2 preempt_thorough=3 race=on
+func harnessC06ShutdownAfterShutdown() {
+	var mu sync.Mutex
+	finished := 0
+	cl := &c06Closer{MemoryStore: NewMemoryStore(), finished: &finished, fmu: &mu}
+	bus := New(WithStore(cl))
+	Subscribe(bus, func(e evA) {
+		vYield()
+		mu.Lock()
+		finished++
+		mu.Unlock()
+	}, Async())
+	vAssert(bus.Shutdown(context.Background()) == nil, "first-shutdown-ok")
+	Publish(bus, evA{N: 1})
+	ctx, cancel := context.WithCancel(context.Background())
+	if vBool() {
+		cancel()
+	}
+	defer cancel()
+	err := bus.Shutdown(ctx)
+	if err == nil {
+		mu.Lock()
+		vAssert(finished == 1, "shutdown-nil-only-after-all-async-work-finished")
+		mu.Unlock()
+	}
+	bus.Wait()
+	vJoinAll()
+	vCover("shutdown-after-shutdown")
+}
+
+//verif:entry property=C06 tier=both bounds="an async handler that panics; the panic handler (running inside that invocation) yields and publishes one more async event; Wait (or Shutdown with a live context) returns only after the report and the follow-up invocation have finished; every interleaving within the preemption bound" cover="panic-report-waited" preempt_quick=2 preempt_thorough=3 race=on
+func harnessC06PanicReportInFlight() {
+	var mu sync.Mutex
+	reported, followUp := 0, 0
+	var bus *EventBus
+	bus = New(WithPanicHandler(func(ev any, ht reflect.Type, v any) {
+		vYield()
+		Publish(bus, evB{N: 1})
+		mu.Lock()
+		reported++
+		mu.Unlock()
+	}))
+	Subscribe(bus, func(e evA) { panic("boom") }, Async())
+	Subscribe(bus, func(e evB) {
+		vYield()
+		mu.Lock()
+		followUp++
+		mu.Unlock()
+	}, Async())
+	Publish(bus, evA{N: 1})
+	if vBool() {
+		bus.Wait()
+	} else {
+		vAssert(bus.Shutdown(context.Background()) == nil, "shutdown-ok")
+	}
+	mu.Lock()
+	vAssert(reported == 1 && followUp == 1, "wait-returns-only-after-all-async-work-finished")
+	mu.Unlock()
+	vJoinAll()
+	vCover("panic-report-waited")
 }
